@@ -9,36 +9,28 @@ TB = ("Trusted: Lean 4.33.0 kernel; axioms of every listed theorem are audited o
       "definitions from the current source; harness, translator and checks/run.py are trusted to feed both sides identically. ")
 
 P = {
- "C01": ("Theorem C01_honest_correct (any n, any instruction list incl. register reuse, any evaluator, any coins, preprocessing by its specification) plus C01_batches_agree/cover "
-         "(garbler flush loop = evaluator chunking for every AND count and chunk size); tie: real mpc under a deterministic executor vs clear-text evaluation (result level) and a "
-         "three-way byte-level comparison proof-model = array model = recorded online traffic incl. every decrypted garbled row.",
-         "AEAD correctness, preprocessing spec (discharged by C10 theorems), atomic rounds (C12) and buffer refinement (C19) are hypotheses; tie is sampled (n<=4, AND counts across the 1000-gate boundary).", "4 C01"),
- "C02": ("Detect-or-extract theorems for the output opening (openReg_detect_or_extract, openOutput_sound) and C02_agreement (all honest output parties that accept agree, any n); "
-         "counterexample theorem for the pinned handler kept; tie: forged output-phase bytes to the real output() vs the Lean handler built from openReg + Lean bincode (verdict, error kind, register), "
-         "and the oracle Ok => value in {f(x_H,x')} over single-field forgeries of every online message.",
+ "C01": ("Theorem C01_honest_correct (any n, any instruction list incl. register reuse, any evaluator, any coins, preprocessing by its specification), C01_batches_agree_gen and C19_mpc_use (garbler flush loop, init_and_shares flush loop and evaluator chunking coincide for every AND count, about the batch-size and chunk functions regenerated from the source); tie: real mpc under a deterministic executor vs clear-text evaluation (result level, n<=4, every tmp_dir pattern x AND counts across the batch boundary) and a three-way byte-level comparison proof-model = array model = recorded online traffic incl. every decrypted garbled row.",
+         "AEAD correctness, preprocessing spec (discharged by the C10 chain C10_abit .. C10_beaver), atomic rounds (C12) and buffer refinement (C19) are hypotheses; the tie is sampled.", "4 C01"),
+ "C02": ("Detect-or-extract theorems for the output opening (openReg_detect_or_extract, openOutput_sound), for the evaluator's row shares over any gate list (C02_evaluator_rows, C02_evaluator_values) and C02_agreement (all honest output parties that accept agree, any n); tie: forged output-phase bytes (one and several fields) to the real output() vs the Lean handler built from openReg + Lean bincode (verdict, error kind, register), and the oracle Ok => value in {f(x_H,x')} over forgeries of every online message with rotating adversary/victim roles.",
          "F_pre-hybrid: preprocessing material valid w.r.t. adversary's keys; label/AEAD secrecy symbolic; probability of guessing a global key not formalised (extractor exhibited).", "4 C02"),
  "C03": ("macCheck_detect_or_extract and C03_output_label: any accepted (bit,MAC)/(value,label) differing from the honest one yields the victim's global key by XOR (all positions, all n); "
          "tie: one forged authenticated field per run against the real code, the consumer must return Err; handler-level tie as C02.",
          "Row-byte tampering relies on AEAD integrity (hypothesis).", "4 C03"),
- "C04": ("C04_laand_check_value (exact value of the leaky-AND check for all n and any hash; zero iff the triple is correct), C04_dm_bound/C04_open_is_committed (commitment openings under injectivity), "
-         "C04_cex_* (pinned-tree counterexamples: predetermined challenge, unchecked cm); tie: bit flips in every preprocessing message, commit-before-reveal ordering under seeded schedules, "
-         "challenge predictor vs tapped values, every commitment recomputed by the Lean BLAKE3.",
+ "C04": ("C04_laand_check_value (exact value of the leaky-AND check, all n, any hash), C04_kos_check_exact (exact acceptance condition of the KOS check), C04_dm_bound/C04_open_is_committed, presence of every check site (C04_check_sites_present over the regenerated inventory), C04_cex_* for the known findings; tie: first/last/random bit flips and several simultaneous lies in every preprocessing message under rotating roles (the victim must fail in preprocessing), commit-before-reveal ordering under seeded schedules, challenge predictor vs tapped values, every commitment recomputed by the Lean BLAKE3.",
          "commit binding and hash collision freedom are hypotheses; soundness probabilities of sacrificed checks are not formalised. Known findings C04-a/b (challenge predetermined / reused) are listed, not repaired.", "4 C04"),
- "C05": ("C05_non_output_silent, C05_output_party_messages on the phase-list skeleton (any circuit, evaluator, output set); tie: recorded per-pair traffic of real runs must equal the model pattern, "
-         "no message to a non-output party after input processing, Some-slots only at output registers.", "Pattern tie is sampled (n in 2..4).", "4 C05"),
+ "C05": ("C05_non_output_silent, C05_output_party_messages on the phase-list skeleton and C05_out_shares_recipients / C05_lambda_recipients / C05_slots_are_output_regs on the message-level proof model (any circuit, evaluator, output set); tie: recorded per-pair traffic of real runs equals the model pattern, every online message byte-equal to the proof model's.",
+         "Ties are sampled (n in 2..4).", "4 C05"),
  "C06": ("C06_mask_bijective, C06_balanced_count (counting form of unbiasedness for both input values); tie: taps show the own share is drawn fresh, message-level reproduction of masked inputs; "
          "statistical supporting run (balance, fresh delta/mask vector, canary).", "Entropy of rand::random is runtime behaviour no model can exhibit: observed, not proved.", "4 C06"),
  "C07": ("C07_mac_view_independent, C07_ashare_opening_independent (re-parametrisation: view identical under any alternative key), C07_cex_ashare_offset (pinned-tree leak); "
          "tie: opened values of real fashare vs the Lean `opened` function; traffic scan for the tapped key (1-/2-element XOR sets, both byte orders).",
          "Hashed and encrypted values are opaque atoms (secrecy through BLAKE3/AES/ChaCha20 assumed).", "4 C07"),
- "C08": ("decVec_bounded/decN_length (decoder total, allocation bounded by bytes received), handler no-panic theorems for the repaired handlers and cex theorems for the pinned ones; "
-         "tie/search: every message index x mutation class x crash point on the real honest party under catch_unwind with a counting allocator and exact hang detection.",
+ "C08": ("decVec_bounded/decN_length (decoder total, allocation bounded by bytes received), handler no-panic theorems with explicit panic outcomes for the aShare decommitments, d-values and the masked-inputs merge (C08_masked_no_panic) plus counterexamples for the old handlers, presence of the length guards (site inventory); tie/search: every message index x byte-level class, structure-aware classes incl. optional fields present/absent, crash points, on the real honest party under catch_unwind with a counting allocator and exact hang detection.",
          "Panics inside dependencies and real allocator behaviour are outside the model; wall-clock boundedness is observed.", "4 C08"),
  "C09": ("C09_len_value_independent, C09_len_formula, message-shape lemmas, C09_row_len: encoded length of every online message is a function of public selectors; "
          "tie: two executions per public configuration, per ordered pair the (phase,length) sequence equals the model pattern computed from public parameters only.", "Pattern tie is sampled.", "4 C09"),
- "C10": ("C10_bucket (every bucket size), C10_beaver, C10_haand_pair, C10_laand_rel, C10_laand_valid, andOK_of_beaver, all for arbitrary n; tie: relations checked on exported real shares (n<=5), "
-         "unit tie of combine_two_leaky_ands, message-level reproduction of haand/flaand/dvalue/Beaver messages and final AND shares from tapped coins using the theorem's own functions.",
-         "Valid of fashare outputs is tied at result level (KOS/aBit messages not recomputed).", "4 C10"),
+ "C10": ("C10_abit (OT sessions give valid shares), C10_bucket (every bucket size), C10_beaver, C10_haand_pair, C10_laand_rel, C10_laand_valid, andOK_of_beaver, Gen_bucketSize_pos (about the regenerated bucket_size), all for arbitrary n; tie: relations checked on exported real shares (n<=5, bucket sizes 5 and 4), unit ties of combine_two_leaky_ands and of combine_bucket for every bucket size 1..8 against combineBucket, message-level reproduction of haand/flaand/dvalue/Beaver messages and final AND shares from tapped coins using the theorems' own functions.",
+         "The KOS/aBit messages themselves are not recomputed by the model (result-level tie for fashare outputs).", "4 C10"),
  "C11": ("C11_cot, column_relation (correlated message at every index, hence every length), C11_in_step, C11_kos_check_honest_spec with carry-less multiplication proved bilinear and commutative; "
          "tie: real KOS sessions through the __bench re-exports at boundary and random lengths, both session orders.", "PRG/tweakable hash arbitrary functions; base OT ideal.", "4 C11"),
  "C12": ("C12_phased_no_deadlock, C12_polytune(_sequential), C12_phased_schedule_independent (any n, phases, capacity >= 1), C12_same_object; tie: the phase list is the object compared with the wire "
@@ -49,17 +41,18 @@ P = {
          "Finite statements (n=2 all setups; n=3 by instances), labelled as such; mpc abstracted in the network model; tokio primitives as modelled.", "4 C13-C17"),
  "C14": ("C14_no_disturb (repaired configuration: a rejected command leaves the whole state untouched, all states/commands), C14_msg_no_panic, cex theorems for the pinned tree; tie: injected stray commands on real actors, "
          "steps replayed through the Lean step function.", "Single-actor theorems; network effect observed by the harness.", "4 C13-C17"),
- "C15": ("C15_cex_notify_self (pinned), C15_two_signals_sound/live (all interleavings of actor and task by kernel evaluation); tie: cancel injected at quiescence and in the compile window on real actors.",
-         "tokio Notify semantics as documented; multi-threaded runtime not modelled.", "4 C13-C17"),
+ "C15": ("C15_current_all_schedules (every schedule of any length of actor and task: a replied cancel implies exactly one notification, task ended, permit released; never two notifications; no stuck state), counterexamples for the old single-Notify design; tie: cancel injected at quiescence and in the compile window on real actors with a destination whose notification takes time, the destination's content is snapshotted at the moment cancel returns.",
+         "tokio Notify/oneshot/select semantics as documented; the Lean model is hand-written and validated by the oracle runs only; multi-threaded runtime not modelled.", "4 C13-C17"),
  "C16": ("C16_mismatch_after_schedule, C16_mismatch_before_schedule, C16_illtyped on the step function; tie: mismatch scenarios on real actors, both arrival orders, zero MPC messages, steps replayed through the model.",
          "garble_lang::check and BLAKE3 equality are parameters.", "4 C13-C17"),
- "C17": ("C17_cex_run_fail_no_output (pinned) and step-level permit bookkeeping; tie: RPC failure injection on real actors, permits at quiescence.", "Network-level no-leak theorem is for the model configuration named in the evidence.", "4 C13-C17"),
- "C18": ("C18_reject_* (each documented-invalid argument is rejected before any send), C18_cex_* (pinned-tree counterexamples); tie: one invalid argument per run with a counting channel, validate-ok-but-not-wf circuits.",
-         "Model of validate is hand-written and compared with the code on every generated tuple.", "4 C18"),
- "C19": ("C19_refines: for every operation sequence (unbounded) the file variant with a shared offset returns exactly what the memory variant returns, incl. chunk boundaries; tie: op sequences on both real variants and the model.",
+ "C17": ("C17_n2_failure_ok (all 32 two-party setups, every delivery order, any single failing validate/run/consts call: every reachable state is terminal with the caller stopped, permit-free and notified, or has a successor), C17_bound / C17_all_released (counting invariant for any number of policies on a host), network-level counterexamples for the old tree; tie: deterministic corpus and seeded RPC failures on real actors (2 and 3 parties), batches of 2..8 policies sharing semaphores with a permit snapshot at every actor step, every step replayed through the Lean step function.",
+         "Finite statements for n=2 at network level; tokio Semaphore as modelled.", "4 C13-C17"),
+ "C18": ("Gen.validateArgs (protocol.rs::validate regenerated by the translator) proved equal to the model (Gen_validateArgs_eq); validateArgs_ok_iff and the reject theorems for own index, evaluator index, output index, input length, empty and repeating output list, Input after a gate; C18_accepted_pout_ok; tie: every generated argument tuple's verdict and error class vs the real mpc (zero sends), non-adjacent repeats, validate-ok-but-not-wf circuits.",
+         "The translator accepts a small statement subset and fails loudly outside it.", "4 C18"),
+ "C19": ("C19_refines (every operation sequence, unbounded: file variant with a shared offset = memory variant, incl. chunk boundaries), C19_mpc_use (the chunks mpc appends are the chunks it later asks for, for every instruction list); tie: op sequences on both real variants and the model; mpc under every tmp_dir pattern (results, traffic equal to the all-memory run, chunk lengths tapped at the buffer vs Gen.chunkSizeIter, no file left).",
          "BufReader/BufWriter/tempfile/OS offset semantics are modelled; 'no file remains' is observed.", "4 C19"),
- "C20": ("C20_scalar_eq_simd over definitions regenerated by the translator from src/block/gf128.rs (Karatsuba composition = four-product composition for any bilinear 64-bit product); tie: dispatching and portable transpose/clmul, "
-         "CR/TCCR hashes and AesRng fills vs the Lean specifications (Lean AES-128 passes FIPS-197).", "clmul64 'holes' identity and the AVX2 butterfly are at correspondence level only.", "4 C20"),
+ "C20": ("C20_clmul64_holes (the holes multiplication regenerated from gf128.rs is the exact carry-less product, all 2^128 pairs), C20_clmul128_portable_eq_spec (portable 128x128 product = specification, unconditionally), C20_simd_eq_portable (given the intrinsic's spec), C20_ctr_single_call (AesRng model: one fill on a fresh generator = keystream prefix, any length, any parallelism); tie: dispatching and portable transpose/clmul, CR/TCCR hashes, AesRng single fills and call sequences vs the Lean specifications and the stateful model (Lean AES-128 passes FIPS-197).",
+         "Both transpose implementations and the AES transcription are at correspondence level only; intrinsic semantics assumed.", "4 C20"),
 }
 
 def main():
